@@ -167,6 +167,7 @@ structure Sim (p : Props) (size : Option Nat) (cap startB off : Nat) (l : LSt) (
   dsle : d.h.dictStart ≤ d.h.out.size
   rel : l.dict.RelB ⟨d.h.out.data.toList.drop off, r⟩ cap (d.h.dictStart - off)
   cap : d.h.cap = cap
+  src : l.srcEnd = false
 
 variable {p : Props} {size : Option Nat} {cap startB off : Nat}
 
@@ -245,7 +246,7 @@ def dAfter (d : DecSt) (o : RawOp) (tbl' : Tbl) (rd' : Dec) : DecSt :=
 
 theorem Sim.after {l : LSt} {d : DecSt} {r : Nat} (h : Sim p size cap startB off l d r) (o : RawOp) (tbl' : Tbl) (rd' : Dec) :
     Sim p size cap startB off (lAfter l o tbl' rd') (dAfter d o tbl' rd') r :=
-  ⟨by simp only [lAfter, dAfter, h.s], rfl, rfl, h.p, h.start, h.size, h.offle, h.dsle, h.rel, h.cap⟩
+  ⟨by simp only [lAfter, dAfter, h.s], rfl, rfl, h.p, h.start, h.size, h.offle, h.dsle, h.rel, h.cap, h.src⟩
 
 /-- the effect of a decoded operation (not the end marker) on the batch state -/
 def bstep (d : DecSt) : RawOp → StepRes
@@ -344,7 +345,7 @@ theorem apply_sim {l : LSt} {d : DecSt} {r : Nat} (h : Sim p size cap startB off
         rfl, rfl⟩
       · rw [DecSt.copy, if_pos (by rw [h.dictLen]; exact hc)]
       · refine ⟨h.s, h.tbl, h.rd, h.p, by simp only [c2]; exact h.start, h.size, by simp only [c2]; exact hol,
-          by simp only [c2, hsz]; omega, ?_, by rw [c3]; exact h.cap⟩
+          by simp only [c2, hsz]; omega, ?_, by rw [c3]; exact h.cap, h.src⟩
         simp only [c1, c2]
         rw [← copyMatchList_drop dist off len _ (by omega) (by rw [length_toList]; omega)]
         exact e2
@@ -360,7 +361,7 @@ theorem apply_sim {l : LSt} {d : DecSt} {r : Nat} (h : Sim p size cap startB off
     obtain ⟨dd, e1, e2⟩ := relB_writeByte l.dict _ cap _ h.rel b.toUInt8 (by simp only [hwl]; omega)
     refine ⟨{ d with h := d.h.push b }, { l with dict := dd }, rfl, by simp only [apply, e1], ?_, rfl, ?_, ?_, ?_,
       rfl, rfl⟩
-    · refine ⟨h.s, h.tbl, h.rd, h.p, h.start, h.size, hol, ?_, ?_, h.cap⟩
+    · refine ⟨h.s, h.tbl, h.rd, h.p, h.start, h.size, hol, ?_, ?_, h.cap, h.src⟩
       · simp only [Hist.push, ByteArray.size_push]; omega
       · simp only [push_toList]
         rw [List.drop_append_of_le_length (by rw [length_toList]; omega)]
@@ -560,7 +561,7 @@ theorem tail_spec {l : LSt} {d : DecSt} {r : Nat} (h : Sim p size cap startB off
     rw [readOp_none l hres]
     rw [h.ctx, h.tbl, h.rd] at hres
     obtain ⟨d', e1, e2⟩ := decStep_none (p := p) d hres
-    simp only [TailPost, finish_ne p d hc, e1]
+    simp only [TailPost, finish_ne p d hc, e1, h.src, Bool.false_eq_true, if_false]
     exact Or.inl ⟨rfl, fun _ => rfl⟩
   | some x =>
     obtain ⟨o, tbl', rd'⟩ := x
@@ -573,7 +574,7 @@ theorem tail_spec {l : LSt} {d : DecSt} {r : Nat} (h : Sim p size cap startB off
       simp only [TailPost, finish_ne p d hc, hd]
       refine ⟨he, hle, dAfter d o tbl' rd', ?_, by trivial, by trivial, by trivial⟩
       have := h.after o tbl' rd'
-      exact ⟨this.s, this.tbl, this.rd, this.p, this.start, this.size, this.offle, this.dsle, this.rel, this.cap⟩
+      exact ⟨this.s, this.tbl, this.rd, this.p, this.start, this.size, this.offle, this.dsle, this.rel, this.cap, this.src⟩
     · rw [if_neg hm] at hd ⊢
       rcases bstep_cases (dAfter d o tbl' rd') o with ⟨d', e1, _⟩ | ⟨w, e1⟩
       · rw [e1] at hd
@@ -708,7 +709,7 @@ theorem fill_spec (R : SegRes) : ∀ (fuelL : Nat) (l : LSt) (d : DecSt) (r : Na
     cases hres : decTree pm (opDec l.ctx) l.tbl l.rd with
     | none =>
       rw [readOp_none l hres]
-      simp only [FillPost]
+      simp only [FillPost, h.src, Bool.false_eq_true, if_false]
       rw [h.ctx, h.tbl, h.rd] at hres
       obtain ⟨d', e1, e2⟩ := decStep_none (p := p) d hres
       refine Or.inl ⟨rfl, fun hK => ?_⟩
@@ -727,7 +728,7 @@ theorem fill_spec (R : SegRes) : ∀ (fuelL : Nat) (l : LSt) (d : DecSt) (r : Na
         simp only
         have hsimM : Sim p size cap startB off
             { ({ lAfter l o tbl' rd' with eosMarker := true } : LSt) with eos := true } (dAfter d o tbl' rd') r :=
-          ⟨hsim.s, hsim.tbl, hsim.rd, hsim.p, hsim.start, hsim.size, hsim.offle, hsim.dsle, hsim.rel, hsim.cap⟩
+          ⟨hsim.s, hsim.tbl, hsim.rd, hsim.p, hsim.start, hsim.size, hsim.offle, hsim.dsle, hsim.rel, hsim.cap, hsim.src⟩
         have hlmE : ({ ({ lAfter l o tbl' rd' with eosMarker := true } : LSt) with eos := true } : LSt).eos = true := rfl
         have hlmR : ({ ({ lAfter l o tbl' rd' with eosMarker := true } : LSt) with eos := true } : LSt).rd.inp.length
             ≤ l.rd.inp.length := hrdle
@@ -810,7 +811,7 @@ theorem fill_spec (R : SegRes) : ∀ (fuelL : Nat) (l : LSt) (d : DecSt) (r : Na
                 exact ⟨_, rfl⟩
               · rw [if_neg hgt]
                 have hs3 : Sim p (some sz) cap startB off ({ l'' with size := some sz, eos := true } : LSt) d' r :=
-                  ⟨b3.s, b3.tbl, b3.rd, b3.p, b3.start, rfl, b3.offle, b3.dsle, b3.rel, b3.cap⟩
+                  ⟨b3.s, b3.tbl, b3.rd, b3.p, b3.start, rfl, b3.offle, b3.dsle, b3.rel, b3.cap, b3.src⟩
                 refine tailPost_fill (tail_spec hs3 rfl) hpre hrd2 (fun hK => ?_)
                 obtain ⟨fb, hfb⟩ := hK1 hK
                 rw [hfb, contRes]
@@ -898,7 +899,7 @@ theorem decompress_spec {R : SegRes} {l : LSt} {D : ByteArray} (hg : GI p size c
   · rw [if_pos hz']
     have hz := hcond.mp hz'
     have hs3 : Sim p size cap startB off ({ l with eos := true } : LSt) d D.size :=
-      ⟨hs.s, hs.tbl, hs.rd, hs.p, hs.start, hs.size, hs.offle, hs.dsle, hs.rel, hs.cap⟩
+      ⟨hs.s, hs.tbl, hs.rd, hs.p, hs.start, hs.size, hs.offle, hs.dsle, hs.rel, hs.cap, hs.src⟩
     have hR : K R → R = decSegment.finish p false d := by
       intro hK
       obtain ⟨fb, hfb⟩ := tracks_succ ht hK
@@ -1026,7 +1027,7 @@ theorem readLoop_spec (R : SegRes) (hcap : 274 ≤ cap) (n0 len : Nat) (D0 : Byt
       rw [List.take_eq_take_iff, List.length_drop, hwl, hcs]
       omega
     have hs1 : Sim p size cap startB off ({ l with dict := d' } : LSt) d (D0 ++ (acc ++ chunk)).size := by
-      refine ⟨hs.s, hs.tbl, hs.rd, hs.p, hs.start, hs.size, hs.offle, hs.dsle, ?_, hs.cap⟩
+      refine ⟨hs.s, hs.tbl, hs.rd, hs.p, hs.start, hs.size, hs.offle, hs.dsle, ?_, hs.cap, hs.src⟩
       rw [hsize', hcs]; exact r2
     have hgd1 : GId p size cap startB off R ({ l with dict := d' } : LSt) (D0 ++ (acc ++ chunk)) d :=
       ⟨hs1, hD', h1, h2⟩
@@ -1125,7 +1126,7 @@ theorem newReader_init (cfgCap : Nat) (inp : ByteArray) (l : LSt) (h : newReader
     ∃ (p : Props) (size : Option Nat) (cap : Nat) (R : SegRes), 274 ≤ cap ∧ GI p size cap 0 0 R l ByteArray.empty ∧
       (Lzma1.read (if cfgCap = 0 then 8 * 1024 * 1024 else cfgCap) inp).out = R.d.h.out ∧
       (Lzma1.read (if cfgCap = 0 then 8 * 1024 * 1024 else cfgCap) inp).status = R.status := by
-  unfold newReader at h
+  unfold newReader newReaderE at h
   unfold Lzma1.read
   by_cases c1 : inp.size < 13
   · rw [if_pos c1] at h; cases h
@@ -1154,7 +1155,7 @@ theorem newReader_init (cfgCap : Nat) (inp : ByteArray) (l : LSt) (h : newReader
           (max (Lzma1.le inp 1 4) Lzma1.minDictCap) = cap at hc ⊢
       refine ⟨p, size, cap, _, hc, ?_, rfl, rfl⟩
       refine ⟨{ s := {}, tbl := initTable p.lc p.lp, rd := rd, h := { out := ByteArray.empty, dictStart := 0, cap := cap } },
-        ⟨rfl, rfl, rfl, rfl, rfl, rfl, Nat.le_refl _, Nat.le_refl _, ⟨new_rel cap, rfl, by omega⟩, rfl⟩, rfl, ?_, ?_⟩
+        ⟨rfl, rfl, rfl, rfl, rfl, rfl, Nat.le_refl _, Nat.le_refl _, ⟨new_rel cap, rfl, by omega⟩, rfl, rfl⟩, rfl, ?_, ?_⟩
       · intro _
         refine ⟨fun _ => ⟨_, rfl⟩, fun sz hsz => ?_⟩
         show 0 - 0 < sz ∨ sz = 0 ∧ 0 - 0 = 0
